@@ -26,6 +26,43 @@ ATOMS = [
 ]
 S = [1, 1.0, 0, -0.0, "a", "1", None, True]
 ORDER_POOL = [1, 1.0, 2, "a", "1", [1], [1.0]]
+# ints whose host hashes collide in a small table: the internal iteration
+# order of the host set then depends on the insertion order
+COLLIDE_POOL = [1, 9, 17, 3, 11, 33]
+
+# values reached through a mutation history (with the value hashed before
+# each mutation) must be interchangeable with freshly built equal values
+HISTORY = {
+    "elem-assign": "do def l = [y, y]; l in <<[0]>>; l[0] = x; l end",
+    "append": "do def l = [x]; l in <<[0]>>; append(l, y); l end",
+    "insert_at": "do def l = [y]; l in <<[0]>>; insert_at(l, 0, x); l end",
+    "delete_at": "do def l = [x, y, x]; l in <<[0]>>; delete_at(l, 2); l end",
+    "remove": "do def l = [x, y, 'gone']; l in <<[0]>>; remove(l, 'gone'); l end",
+    "nested-append": "do def i = [x]; def l = [i, y]; l in <<[0]>>; "
+                     "i in <<[0]>>; append(i, y); l end",
+    "nested-assign": "do def i = [y, y]; def l = [i, y]; l in <<[0]>>; "
+                     "i[0] = x; l end",
+    "set-append": "do def l = <<x>>; l in <<[0]>>; append(l, y); l end",
+    "set-remove": "do def l = <<x, y, 'gone'>>; l in <<[0]>>; remove(l, 'gone'); l end",
+    "map-assign": "do def l = <<<'k' => y>>>; l in <<[0]>>; l['k'] = x; "
+                  "l['j'] = y; l end",
+    "map-put": "do def l = <<<'j' => y>>>; l in <<[0]>>; put(l, 'k', x); l end",
+    "list-in-set": "do def i = [y]; def l = <<i>>; l in <<[0]>>; l end",
+    "plus-assign": "do def l = [x]; l in <<[0]>>; l += [y]; l end",
+}
+FRESH = {
+    "elem-assign": "[x, y]", "append": "[x, y]", "insert_at": "[x, y]",
+    "delete_at": "[x, y]", "remove": "[x, y]",
+    "nested-append": "[[x, y], y]", "nested-assign": "[[x, y], y]",
+    "set-append": "<<y, x>>", "set-remove": "<<y, x>>",
+    "map-assign": "<<<'j' => y, 'k' => x>>>",
+    "map-put": "<<<'k' => x, 'j' => y>>>", "list-in-set": "<<[y]>>",
+    "plus-assign": "[x, y]",
+}
+PROBE = ("[h == f, f == h, h in <<f>>, f in <<h>>, <<h>> == <<f>>, "
+         "length(<<h, f>>), <<<identity(h) => 1>>>[f, 'nf'], "
+         "<<<identity(f) => 1>>>[h, 'nf'], h in [f], "
+         "length(set([h, f, h]))]")
 
 
 def build_pool(tier):
@@ -103,8 +140,36 @@ _F = {}
 
 def forms():
     if "f" not in _F:
-        _F["f"] = core.Forms(FORMS)
+        allf = dict(FORMS)
+        for k, v in HISTORY.items():
+            allf["hist:" + k] = ("do def h = " + v + "; def f = " +
+                                 FRESH[k] + "; " + PROBE + " end")
+        _F["f"] = core.Forms(allf)
     return _F["f"]
+
+
+def explore_history(chunk):
+    agg = core.Agg()
+    f = forms()
+    want = [True, True, True, True, True, 1, 1, 1, True, 1]
+    for name in chunk["names"]:
+        for x in S:
+            for y in S:
+                r = f.ev("hist:" + name, x=core.to_value(x),
+                         y=core.to_value(y))
+                agg.count("steps")
+                agg.cls(("history", name, r[0]))
+                ok = r[0] == "value" and core.strict_eq(
+                    core.from_value(r[1]), want)
+                if not ok:
+                    agg.violation(
+                        {"law": "history-built-value-interchangeable",
+                         "how": name},
+                        {"t": "hist", "name": name, "x": x, "y": y,
+                         "src": f.src["hist:" + name]},
+                        want, core.show_raw(r), size=len(repr((x, y))))
+        agg.count("cases")
+    return agg
 
 
 def real_eq(x, y):
@@ -309,6 +374,8 @@ def replay(case, verbose=False):
         if verbose:
             print("triple", p, "transitivity broken:", bad)
         return bad
+    elif case["t"] == "hist":
+        agg = explore_history({"names": [case["name"]]})
     elif case["t"] == "inter":
         p = [_fix(case["a"]), _fix(case["b"]), _fix(case["c"])]
         agg = explore_interchange({"pool": p, "pairs": [(0, 1)]})
@@ -382,6 +449,13 @@ def main(tier, seed):
     maxk = 4 if tier == "quick" else 5
     subsets = [c for k in range(1, maxk + 1)
                for c in itertools.combinations(ORDER_POOL, k)]
+    subsets += [c for k in range(2, maxk + 1)
+                for c in itertools.combinations(COLLIDE_POOL, k)]
+    # sets of sets / lists of sets whose inner sets collide
+    subsets += [(("set", [1, 9]), ("set", [9, 1]), 3),
+                (("set", [1, 9, 17]), ("set", [17, 9, 1]), [("set", [9, 1])]),
+                (("map", [(1, 0), (9, 0)]), ("map", [(9, 0), (1, 0)]), 2)]
+    agg.merge(core.pmap(explore_history, [{"names": [n]} for n in HISTORY]))
     a3 = core.pmap(explore_orders,
                    [{"subsets": c} for c in core.chunked(subsets,
                                                          core.NPROC)])
@@ -399,7 +473,11 @@ def main(tier, seed):
               f"the value API and through 11 program forms, all {triples} "
               f"ordered triples for transitivity, all equal pairs x all "
               f"containers for interchangeability, all insertion orders of "
-              f"all <= {maxk}-subsets of a 7-value pool; class = (check, "
+              f"all <= {maxk}-subsets of a 7-value pool and of 6 ints with "
+              f"colliding host hashes; {len(HISTORY)} ways of reaching a "
+              f"container through mutations after it was hashed x all pairs "
+              f"of {len(S)} atoms vs the freshly built equal value; class = "
+              f"(check, "
               f"kinds, result)"),
         exhaustive=True,
         assumptions=["NaN/inf decimals, functions, streams, objects and "
